@@ -10,11 +10,13 @@ struct NmtRun : NodeEnv {
     int m = M_INIT;                 // model mode
     uint8_t consNode = 0; int prevHbState = 0; bool hbArmed = false; uint32_t hbMs = 0; int variant = 0; uint32_t rpdoId = 0;
     uint8_t syncCount = 0;
+    // TPDO 0 may have an inhibit time: a trigger inside the window is deferred to its end - and must still respect the NMT gate then
+    uint64_t inhTicks = 0, inhEnd = 0; bool inhibited = false, pending = false;
     NmtRun(const Plan &p, Cov &c, bool vb) : NodeEnv(p, c, vb) {}
 
     void build() {
         nodeId = (uint8_t)plan.c("nodeid", 1); if (nodeId < 1 || nodeId > 126) nodeId = 1; freq = 1000;
-        consNode = (uint8_t)(nodeId + 1); hbMs = (uint32_t)plan.c("hb", 10); variant = (int)plan.c("variant", 0);
+        consNode = (uint8_t)(nodeId + 1); hbMs = (uint32_t)plan.c("hb", 10); variant = (int)plan.c("variant", 0); inhTicks = (uint64_t)plan.c("inh", 0); if (inhTicks > 500) inhTicks = 500;
         add_mandatory(specs, 1);
         add_typed(specs, T_EMCYHIST, 0x1003, 0, CO_OBJ_____RW, 0); add_typed(specs, T_EMCYHIST, 0x1003, 1, CO_OBJ_____R_, 0); add_typed(specs, T_EMCYHIST, 0x1003, 2, CO_OBJ_____R_, 0);
         add_typed(specs, T_SYNCID, 0x1005, 0, CO_OBJ_____RW, 0x80); add_typed(specs, T_SYNCCYCLE, 0x1006, 0, CO_OBJ_____RW, 0);
@@ -23,7 +25,7 @@ struct NmtRun : NodeEnv {
         add_typed(specs, T_HBPROD, 0x1017, 0, CO_OBJ_____RW, hbMs);
         rpdoId = variant == 1 ? 0x80u : variant == 2 ? 0x600u + nodeId : 0x200u + nodeId;
         add_rpdo(specs, 0, rpdoId, 254, {CO_LINK(0x2100, 1, 8)}, false);
-        add_tpdo(specs, 0, 0x40000180u + nodeId, 254, 0, 0, {CO_LINK(0x2100, 2, 8)}, false);
+        add_tpdo(specs, 0, 0x40000180u + nodeId, 254, (uint16_t)(inhTicks * 10), 0, {CO_LINK(0x2100, 2, 8)}, false);
         add_tpdo(specs, 1, 0x40000280u + nodeId, 1, 0, 0, {CO_LINK(0x2100, 3, 8)}, false);
         add_u8(specs, 0x2100, 0, CO_OBJ_D___R_, 3); add_u8(specs, 0x2100, 1, CO_OBJ____PRW, 0x11); add_u8(specs, 0x2100, 2, CO_OBJ____PRW, 0x22); add_u8(specs, 0x2100, 3, CO_OBJ____PRW, 0x33);
         NodeCfg cfg; cfg.nodeId = nodeId; cfg.freq = freq; cfg.tmrNum = 16;
@@ -40,7 +42,14 @@ struct NmtRun : NodeEnv {
         if (oldM == newM) { if (!cbs.empty()) fail("modechange/spurious", std::string("mode-change callback although the mode did not change: ") + where); }
         else if (cbs.size() != 1 || cbs[0] != newM) fail("modechange/missing", std::string("expected exactly one mode-change callback with mode ") + std::to_string(newM) + " after " + where);
     }
-    void onReset() { prevHbState = 0; hbArmed = false; syncCount = 0; }
+    void onReset() { prevHbState = 0; hbArmed = false; syncCount = 0; inhibited = pending = false; }
+    void modeChanged(int old) { if (m == M_OP && old != M_OP) inhibited = pending = false; if (m == M_INVALID) inhibited = pending = false; }   // (re-)entering OPERATIONAL re-initialises the TPDOs
+    // TPDO frames the model expects while time advances from t0 to t1 (the inhibit timer runs in every mode; only OPERATIONAL may send)
+    int deferredDue(uint64_t t1) {
+        int n = 0;
+        while (inhibited && inhEnd <= t1) { inhibited = false; if (pending) { pending = false; if (m == M_OP) { n++; inhibited = true; inhEnd += inhTicks; cov.hit("deferred-tpdo-sent-at-inhibit-end"); } else { cov.hit("deferred-tpdo-dropped-outside-operational"); nontrivial = true; } } }
+        return n;
+    }
     // a frame no service claims
     void expectUnclaimed(const Fx &fx, const char *what) {
         if (!fx.tx.empty()) { fail("unclaimed/tx", std::string("transmission in reaction to ") + what + ": " + fx.tx[0].str()); return; }
@@ -51,12 +60,13 @@ struct NmtRun : NodeEnv {
 
     void op(const Op &o) {
         const std::string &k = o.k;
-        if (k == "start") { size_t mk = w.mark(); w.start(0); Fx fx = collect(mk); int old = m; if (m == M_INIT) m = M_PREOP; if (bootups(fx) != (old == M_INIT ? 1 : 0)) fail("bootup/start", "boot-up frames after CONodeStart: " + std::to_string(bootups(fx))); checkModeCb(fx, old, m, false, "CONodeStart"); }
+        if (k == "start") { size_t mk = w.mark(); w.start(0); Fx fx = collect(mk); int old = m; if (m == M_INIT) m = M_PREOP; modeChanged(old); if (bootups(fx) != (old == M_INIT ? 1 : 0)) fail("bootup/start", "boot-up frames after CONodeStart: " + std::to_string(bootups(fx))); checkModeCb(fx, old, m, false, "CONodeStart"); }
         else if (k == "nmt") {
             uint8_t cs = (uint8_t)o.arg(0), tg = (uint8_t)o.arg(1); int dlc = (int)o.arg(2, 2); Frame f(0, (uint8_t)dlc, {cs, tg}); int old = m;
-            Fx fx = deliver(f); if (dlc < 2) { m = mode(); if (bootups(fx)) onReset(); return; }   // DLC < 2: not constrained
+            Fx fx = deliver(f); if (dlc < 2) { m = mode(); modeChanged(old); if (bootups(fx)) onReset(); return; }   // DLC < 2: not constrained
             bool listens = m == M_PREOP || m == M_OP || m == M_STOP; bool mine = tg == nodeId || tg == 0; bool reset = false;
             if (listens && mine) { if (cs == 1) m = M_OP; else if (cs == 2) m = M_STOP; else if (cs == 128) m = M_PREOP; else if (cs == 129 || cs == 130) { m = M_PREOP; reset = true; } }
+            modeChanged(old); if (pending && old == M_OP && m != M_OP) cov.hit("left-operational-with-deferred-tpdo");
             if (listens) expectClaimed(fx, "NMT command"); else expectUnclaimed(fx, "NMT command");
             int rr = 0, rrType = 0; for (auto &e : fx.evs) if (e.kind == EV_RESETREQ) { rr++; rrType = (int)e.a; }
             if (rr != (reset ? 1 : 0) || (reset && rrType != (cs == 129 ? CO_RESET_NODE : CO_RESET_COM))) fail("resetrequest", "reset-request callbacks: " + std::to_string(rr) + " type " + std::to_string(rrType) + " for cs " + std::to_string(cs));
@@ -66,9 +76,9 @@ struct NmtRun : NodeEnv {
             if (listens && !mine) cov.hit("nmt-foreign-target"); if (listens && mine && !reset && m == old && (cs == 1 || cs == 2 || cs == 128)) cov.hit("nmt-same-state");
             if (listens && mine && !(cs == 1 || cs == 2 || cs == 128 || cs == 129 || cs == 130)) cov.hit("nmt-unknown-cs");
         }
-        else if (k == "setmode") { int nm = (int)o.arg(0); if (m == M_INIT || m == M_INVALID || nm < M_PREOP || nm > M_STOP) return; size_t mk = w.mark(); int old = m; w.cur = 0; CONmtSetMode(&N()->Nmt, (CO_MODE)nm); m = nm; Fx fx = collect(mk); if (!fx.tx.empty()) fail("setmode/tx", "transmission on CONmtSetMode"); checkModeCb(fx, old, m, false, "CONmtSetMode"); }
+        else if (k == "setmode") { int nm = (int)o.arg(0); if (m == M_INIT || m == M_INVALID || nm < M_PREOP || nm > M_STOP) return; size_t mk = w.mark(); int old = m; w.cur = 0; CONmtSetMode(&N()->Nmt, (CO_MODE)nm); m = nm; modeChanged(old); if (pending && old == M_OP && m != M_OP) cov.hit("left-operational-with-deferred-tpdo"); Fx fx = collect(mk); if (!fx.tx.empty()) fail("setmode/tx", "transmission on CONmtSetMode"); checkModeCb(fx, old, m, false, "CONmtSetMode"); }
         else if (k == "reset") { if (m == M_INVALID) return; size_t mk = w.mark(); int old = m; w.cur = 0; CONmtReset(&N()->Nmt, o.arg(0) ? CO_RESET_NODE : CO_RESET_COM); Fx fx = collect(mk); if (old != M_INIT) m = M_PREOP; if (bootups(fx) != (old != M_INIT ? 1 : 0)) fail("bootup/api-reset", std::to_string(bootups(fx)) + " boot-up frames after CONmtReset in mode " + std::to_string(old)); checkModeCb(fx, old, m, true, "CONmtReset"); onReset(); cov.hit("api-reset"); }
-        else if (k == "stop") { if (m == M_INVALID) return; size_t mk = w.mark(); w.cur = 0; CONodeStop(N()); Fx fx = collect(mk); m = M_INVALID; if (!fx.tx.empty()) fail("stop/tx", "transmission on CONodeStop"); cov.hit("node-stop"); }
+        else if (k == "stop") { if (m == M_INVALID) return; size_t mk = w.mark(); w.cur = 0; CONodeStop(N()); Fx fx = collect(mk); m = M_INVALID; modeChanged(M_OP); if (!fx.tx.empty()) fail("stop/tx", "transmission on CONodeStop"); cov.hit("node-stop"); }
         else if (k == "reinit") { if (m != M_INVALID) return; S().rx.clear(); w.init(0); m = M_INIT; onReset(); (void)CONodeGetErr(N()); }
         else if (k == "p_sdo") {
             Frame f(0x600u + nodeId, 8, {0x40, 0x00, 0x10, 0, 0, 0, 0, 0}); Fx fx = deliver(f);
@@ -104,11 +114,14 @@ struct NmtRun : NodeEnv {
             if (a.tx.size() != exp || b.tx.size() != exp) fail("gating/emcy", "EMCY frames " + std::to_string(a.tx.size()) + "/" + std::to_string(b.tx.size()) + " in mode " + std::to_string(m));
             for (auto &t : a.tx) if (t.id != 0x80u + nodeId || t.dlc != 8) fail("emcy/frame", t.str());
         }
-        else if (k == "p_trig") { size_t mk = w.mark(); w.cur = 0; COTPdoTrigPdo(N()->TPdo, 0); Fx fx = collect(mk); size_t exp = m == M_OP ? 1 : 0; if (fx.tx.size() != exp) fail("gating/tpdo", "triggered TPDO sent " + std::to_string(fx.tx.size()) + " frames in mode " + std::to_string(m)); for (auto &t : fx.tx) if (t.id != 0x180u + nodeId || t.dlc != 1 || t.d[0] != (uint8_t)w.raw(0, 0x2100, 2)) fail("tpdo/frame", t.str()); }
+        else if (k == "p_trig") { size_t mk = w.mark(); w.cur = 0; COTPdoTrigPdo(N()->TPdo, 0); Fx fx = collect(mk); size_t exp = m == M_OP ? 1 : 0;
+            if (m == M_OP && inhibited) { exp = 0; pending = true; cov.hit("trigger-inside-inhibit-window"); } else if (m == M_OP && inhTicks) { inhibited = true; inhEnd = now() + inhTicks; } if (fx.tx.size() != exp) fail("gating/tpdo", "triggered TPDO sent " + std::to_string(fx.tx.size()) + " frames in mode " + std::to_string(m)); for (auto &t : fx.tx) if (t.id != 0x180u + nodeId || t.dlc != 1 || t.d[0] != (uint8_t)w.raw(0, 0x2100, 2)) fail("tpdo/frame", t.str()); }
         else if (k == "p_tick") {
-            if (hbMs == 0) { w.tick(0, 3); return; }
-            size_t mk = w.mark(); w.tick(0, hbMs); Fx fx = collect(mk);       // exactly one producer period
-            int hb = 0; for (auto &t : fx.tx) { if (t.id == 0x700u + nodeId && t.dlc == 1) { hb++; uint8_t expState = m == M_PREOP ? 127 : m == M_OP ? 5 : 4; if (t.d[0] != expState) fail("hbprod/state-byte", "heartbeat carries " + std::to_string(t.d[0]) + " in mode " + std::to_string(m)); } else fail("tick/tx", "unexpected frame while idle: " + t.str()); }
+            size_t mk = w.mark(); w.tick(0, hbMs ? hbMs : 3); Fx fx = collect(mk);       // exactly one producer period
+            int expPdo = m == M_INVALID ? 0 : deferredDue(now()), gotPdo = 0; for (auto &t : fx.tx) if (t.id == 0x180u + nodeId && t.dlc == 1 && t.d[0] == (uint8_t)w.raw(0, 0x2100, 2)) gotPdo++;
+            if (gotPdo != expPdo) { fail(m != M_OP ? "gating/tpdo-deferred" : "tpdo/deferred-count", std::to_string(gotPdo) + " deferred TPDO frames while ticking in mode " + std::to_string(m) + ", model " + std::to_string(expPdo)); return; }
+            if (hbMs == 0) { for (auto &t : fx.tx) if (!(t.id == 0x180u + nodeId)) fail("tick/tx", "unexpected frame while idle: " + t.str()); return; }
+            int hb = 0; for (auto &t : fx.tx) { if (t.id == 0x180u + nodeId && t.dlc == 1) continue; if (t.id == 0x700u + nodeId && t.dlc == 1) { hb++; uint8_t expState = m == M_PREOP ? 127 : m == M_OP ? 5 : 4; if (t.d[0] != expState) fail("hbprod/state-byte", "heartbeat carries " + std::to_string(t.d[0]) + " in mode " + std::to_string(m)); } else fail("tick/tx", "unexpected frame while idle: " + t.str()); }
             bool expHb = m == M_PREOP || m == M_OP || m == M_STOP;
             if (m == M_INVALID) { if (hb) fail("hbprod/after-stop", "heartbeat after CONodeStop"); }
             else if (m == M_INIT) { if (hb) fail("gating/hb-in-init", "heartbeat in INIT"); }
@@ -132,7 +145,7 @@ struct NmtRun : NodeEnv {
 };
 
 Plan gen_nmt(Rng &r, bool thorough) {
-    Plan p; p.cfg["nodeid"] = r.pick<int64_t>({1, 2, 10, 100, 126}); p.cfg["hb"] = r.pick<int64_t>({0, 5, 10, 50}); p.cfg["variant"] = r.chance(1, 4) ? r.range(1, 2) : 0;
+    Plan p; p.cfg["nodeid"] = r.pick<int64_t>({1, 2, 10, 100, 126}); p.cfg["hb"] = r.pick<int64_t>({0, 5, 10, 50}); p.cfg["variant"] = r.chance(1, 4) ? r.range(1, 2) : 0; p.cfg["inh"] = r.chance(1, 2) ? 0 : r.pick<int64_t>({3, 7, 20, 60, 120});
     int64_t nid = p.cfg["nodeid"];
     if (r.chance(9, 10)) p.ops.push_back(Op("start"));
     int n = (int)r.range(2, thorough ? 40 : 20);
@@ -148,7 +161,7 @@ Plan gen_nmt(Rng &r, bool thorough) {
         else if (c == 12) p.ops.push_back(Op("p_hb", {r.pick<int64_t>({0, 4, 5, 127, 5, 5})}));
         else if (c == 13) p.ops.push_back(Op("p_foreign", {r.pick<int64_t>({0x123, 0x7FF, 0x100, 0x481, 0x581, 0x77F, 0x1FFFFFFF, 0x7E4})}, {r.byte(), r.byte(), r.byte()}));
         else if (c == 14) p.ops.push_back(Op("p_emcy", {(int64_t)r.below(2)}));
-        else if (c == 15) p.ops.push_back(Op("p_trig"));
+        else if (c == 15) { p.ops.push_back(Op("p_trig")); if (r.chance(1, 2)) p.ops.push_back(Op("p_trig")); }
         else p.ops.push_back(Op("p_tick"));
     }
     return p;
